@@ -921,6 +921,140 @@ impl Part for E3b {
 }
 
 // ------------------------------------------------------------------------------------------------
+// E3d (supporting, SAMPLING - not exhaustive): free-running threads that share key OBJECTS
+// ------------------------------------------------------------------------------------------------
+
+#[derive(Clone, Debug, Serialize, Deserialize)]
+struct StressCase {
+    kem: Kem,
+    rounds: u32,
+    threads: u32,
+}
+
+struct SharedObjects;
+
+fn stress_kem<A: AeadT, D: KdfT, K: KemT>(out: &mut CaseOut, suite: SuiteId, c: &StressCase, seed: u64)
+where
+    K::PrivateKey: Send + Sync,
+    K::PublicKey: Send + Sync,
+    K::EncappedKey: Send + Sync,
+{
+    for round in 0..c.rounds {
+        let fx = fix(suite, Mode::Auth, 40 + (round % 7) as u64, seed);
+        // ONE object of each kind, freshly deserialized, shared by reference between all threads
+        let sk = match K::PrivateKey::from_bytes(&fx.k.sk_r) {
+            Ok(x) => x,
+            Err(e) => {
+                out.fail(format!("from_bytes: {:?}", e));
+                return;
+            }
+        };
+        let sk2 = sk.clone();
+        let pk_r = K::PublicKey::from_bytes(&fx.k.pk_r).unwrap();
+        let enc = K::EncappedKey::from_bytes(&fx.enc).unwrap();
+        let mr = mode_r::<K>(&fx.m).unwrap();
+        let ms = mode_s::<K>(&fx.m).unwrap();
+        let barrier = std::sync::Barrier::new(c.threads as usize);
+        let results: Vec<Vec<u8>> = std::thread::scope(|sc| {
+            let hs: Vec<_> = (0..c.threads)
+                .map(|t| {
+                    let (sk, sk2, pk_r, enc, mr, ms, barrier, fx) = (&sk, &sk2, &pk_r, &enc, &mr, &ms, &barrier, &fx);
+                    sc.spawn(move || {
+                        barrier.wait();
+                        let r = std::panic::catch_unwind(std::panic::AssertUnwindSafe(|| {
+                            let mut o = vec![0u8; 40];
+                            if t % 2 == 0 {
+                                // receivers share the private key object (and its clone), the encapsulated key and the mode
+                                let key = if t % 4 == 0 { sk } else { sk2 };
+                                match hpke::setup_receiver::<A, D, K>(mr, key, enc, &fx.info) {
+                                    Ok(ctx) => {
+                                        ctx.export(b"e3", &mut o).unwrap();
+                                        o
+                                    }
+                                    Err(e) => format!("!{:?}", e).into_bytes(),
+                                }
+                            } else {
+                                // senders share the recipient public key object and the mode (with the identity key pair)
+                                let mut rng = ScriptRng::new(&fx.k.ikm_e);
+                                match hpke::setup_sender::<A, D, K, _>(ms, pk_r, &fx.info, &mut rng) {
+                                    Ok((_, ctx)) => {
+                                        ctx.export(b"e3", &mut o).unwrap();
+                                        o
+                                    }
+                                    Err(e) => format!("!{:?}", e).into_bytes(),
+                                }
+                            }
+                        }));
+                        r.unwrap_or_else(|_| b"!panicked".to_vec())
+                    })
+                })
+                .collect();
+            hs.into_iter().map(|h| h.join().unwrap_or_else(|_| b"!thread died".to_vec())).collect()
+        });
+        for (t, r) in results.iter().enumerate() {
+            out.transitions += 1;
+            if *r != fx.export {
+                out.fail(format!(
+                    "{}: round {}: thread {} sharing a key object with {} other threads got {} instead of the sequential result",
+                    suite.name(),
+                    round,
+                    t,
+                    c.threads - 1,
+                    if r.first() == Some(&b'!') { String::from_utf8_lossy(r).to_string() } else { obs::hx(r) }
+                ));
+                return;
+            }
+        }
+        out.states += 1;
+    }
+}
+
+impl Part for SharedObjects {
+    type Case = StressCase;
+    fn name(&self) -> String {
+        "E3d-free-running-shared-objects-SAMPLED".into()
+    }
+    fn rule(&self) -> String {
+        "SUPPORTING PASS, SAMPLING (not exhaustive, decides nothing on its own): real threads released by a barrier call setup_receiver / setup_sender on ONE freshly deserialized private key / public key / encapsulated key / mode object shared by reference, many rounds; a result that differs from R1 is a violation, silence proves nothing. It exists because the controlled scheduler can only preempt at scheduling points, and state hidden inside a key object between two points (e.g. a lazily filled cache) has none".into()
+    }
+    fn bound(&self, _cfg: &Cfg) -> String {
+        "4 threads x rounds per KEM (X25519, P-256, P-384, P-521); schedules are whatever the OS produces".into()
+    }
+    fn exhaustive(&self) -> bool {
+        false
+    }
+    fn supporting(&self) -> bool {
+        true
+    }
+    fn rerun_check(&self) -> bool {
+        false
+    }
+    fn enumerate(&self, cfg: &Cfg) -> Vec<StressCase> {
+        let t = cfg.tier.thorough();
+        vec![
+            StressCase { kem: Kem::X25519, rounds: if t { 2000 } else { 300 }, threads: 4 },
+            StressCase { kem: Kem::P256, rounds: if t { 1500 } else { 200 }, threads: 4 },
+            StressCase { kem: Kem::P384, rounds: if t { 300 } else { 40 }, threads: 4 },
+            StressCase { kem: Kem::P521, rounds: if t { 200 } else { 30 }, threads: 4 },
+        ]
+    }
+    fn run(&self, cfg: &Cfg, c: &StressCase) -> CaseOut {
+        use hpke::kdf::HkdfSha384;
+        use hpke::kem::{DhP384HkdfSha384, DhP521HkdfSha512};
+        let mut out = CaseOut::new();
+        out.nontrivial = true;
+        out.outcome = format!("stress/{}", c.kem.name());
+        match c.kem {
+            Kem::X25519 => stress_kem::<ChaCha20Poly1305, HkdfSha256, X25519HkdfSha256>(&mut out, SuiteId { kem: c.kem, kdf: Kdf::Sha256, aead: Aead::ChaCha20Poly1305 }, c, cfg.seed),
+            Kem::P256 => stress_kem::<AesGcm128, HkdfSha512, DhP256HkdfSha256>(&mut out, SuiteId { kem: c.kem, kdf: Kdf::Sha512, aead: Aead::Aes128Gcm }, c, cfg.seed),
+            Kem::P384 => stress_kem::<AesGcm128, HkdfSha384, DhP384HkdfSha384>(&mut out, SuiteId { kem: c.kem, kdf: Kdf::Sha384, aead: Aead::Aes128Gcm }, c, cfg.seed),
+            Kem::P521 => stress_kem::<AesGcm256, HkdfSha256, DhP521HkdfSha512>(&mut out, SuiteId { kem: c.kem, kdf: Kdf::Sha256, aead: Aead::Aes256Gcm }, c, cfg.seed),
+        }
+        out
+    }
+}
+
+// ------------------------------------------------------------------------------------------------
 // main
 // ------------------------------------------------------------------------------------------------
 
@@ -1042,6 +1176,14 @@ fn main() {
         c1.threads = 1;
         let r = run_part(&e3b, &c1);
         eprintln!("  part {}: cases {} schedules {} transitions {} violating {} ({:.1}s)", r.name, r.run, r.states, r.transitions, r.violations.len(), r.wall_s);
+        reports.push(r);
+    }
+    let stress = SharedObjects;
+    if want(&stress.name()) {
+        let mut c1 = cfg.clone();
+        c1.threads = 2;
+        let r = run_part(&stress, &c1);
+        eprintln!("  part {}: cases {} rounds {} transitions {} violating {} ({:.1}s)", r.name, r.run, r.states, r.transitions, r.violations.len(), r.wall_s);
         reports.push(r);
     }
     if let Some(n) = sendsync_types {
